@@ -298,6 +298,18 @@ pub fn family(name: &str) -> Family {
                 probes: &[],
             }
         }
+        "recapshyb" => {
+            // re-encapsulation across a change of flavour: the hybridized attribute created last
+            // can be deleted and re-created as classic (explored under the id-reuse finding)
+            let mut f = family("hyb");
+            f.name = "recapshyb";
+            f.alphabet = ops(&["rekey A::y", "rekey *", "prune A::y", "del A::y", "add A::y classic", "add A::z classic", "update", "refresh 1 keep", "refresh 1 drop"]);
+            f.enc_menu = vec!["A::y", "A::y && H::lo", "A::x || A::y", "A::z", "*"];
+            f.tags = Tags { open: "C18.o", deny: "C18.o" };
+            f.rt_bound = 0;
+            f.probes = &["recaps"];
+            f
+        }
         "disrot" => {
             // rotation meets deactivation: the initial world already holds a re-keyed right whose
             // key kept the old secret, so that disable / delete + update + prune + refresh
@@ -442,6 +454,7 @@ pub fn build(fam: &Family, hist: &[Op]) -> World {
     w.rt_encs = fam.rt_encs;
     w.pke_probes = fam.wants("pke");
     w.tenant_probe = fam.wants("tenant");
+    w.recaps_prime = fam.wants("recaps");
     for op in &fam.init {
         w.apply(op, Mode::Replay);
     }
@@ -547,6 +560,7 @@ pub fn explore(run: &mut Run, fam: &Family, max_depth: usize, cap_secs: f64, own
         w.full_matrix = true;
         w.pke_probes = fam.wants("pke");
         w.tenant_probe = fam.wants("tenant");
+        w.recaps_prime = fam.wants("recaps");
         for op in &fam.init {
             w.apply(op, Mode::Check);
         }
@@ -778,6 +792,7 @@ pub fn run_path(run: &mut Run, fam_name: &str, path: &[Op], owned: &[&str]) -> (
     w.max_usks = fam.max_usks.max(4);
     w.pke_probes = fam.wants("pke");
     w.tenant_probe = fam.wants("tenant");
+    w.recaps_prime = fam.wants("recaps");
     for op in &fam.init {
         w.apply(op, Mode::Replay);
     }
